@@ -257,4 +257,178 @@ theorem inv_reachable {s : State} (h : Reachable s) : Inv s := by
   | init => exact inv_init
   | step o _ ih => exact inv_step _ o ih
 
+
+/-! ### The opened file of a cached OPEN response stays resolvable
+
+("it cannot have been closed in the meantime": any later transaction of the
+owner drops the cached response first.) -/
+
+/-- Executor well-formedness used here: an OPEN that succeeds for owner `o`
+returns a state ID whose `other` is new or already belongs to `o` (state ID
+`other`s are unique random values). -/
+def OpenWF (s : State) : Op → Prop
+  | .finish o x => ∀ call r f q, (s.oo o).busy = some (call, r) → r.kind = .open_ →
+      (effResp s r x).status = 0 → (effResp s r x).sid = some (f, q) →
+      s.openOther f = none ∨ s.openOther f = some o
+  | _ => True
+
+inductive ReachableWF : State → Prop
+  | init : ReachableWF {}
+  | step {s : State} (o : Op) : ReachableWF s → OpenWF s o → ReachableWF (step s o)
+
+theorem ReachableWF.reachable {s : State} (h : ReachableWF s) : Reachable s := by
+  induction h with
+  | init => exact Reachable.init
+  | step o _ _ ih => exact Reachable.step o ih
+
+structure OpenInv (s : State) : Prop where
+  legacy : s.legacyOpenFH = false
+  opened : ∀ o r0 x0 f q, (s.oo o).lastDone = some (r0, x0) → r0.kind = .open_ → x0.status = 0 →
+    x0.sid = some (f, q) → s.openOther f = some o
+
+theorem forget_openOther_ne (s : State) (o k f : Nat) (hk : k ≠ o) (h : s.openOther f = some k) :
+    (forget s o).openOther f = some k := by
+  unfold forget
+  have : (s.openOther f == some o) = false := by rw [h]; simpa using hk
+  simp only [this, Bool.and_false, Bool.false_eq_true, if_false]
+  exact h
+
+theorem reinit_openOther_ne (s : State) (o k f : Nat) (hk : k ≠ o) (h : s.openOther f = some k) :
+    (reinit s o).openOther f = some k := by
+  have h1 := forget_openOther_ne s o k f hk h
+  unfold reinit
+  simp only [h1]
+  rw [if_neg]; simpa using hk
+
+theorem begin_openOther (s : State) (o c : Nat) (r : Req) : (begin s o c r).openOther = (forget s o).openOther := rfl
+
+theorem begin_legacy (s : State) (o c : Nat) (r : Req) : (begin s o c r).legacyOpenFH = s.legacyOpenFH := rfl
+theorem reinit_legacy (s : State) (o : Nat) : (reinit s o).legacyOpenFH = s.legacyOpenFH := rfl
+
+theorem openInv_begin (s : State) (o c : Nat) (r : Req) (hi : OpenInv s) : OpenInv (begin s o c r) where
+  legacy := hi.legacy
+  opened := fun k r0 x0 f q hd hk hs hsid => by
+    rw [begin_oo] at hd
+    by_cases hko : k = o
+    · simp [hko] at hd
+    · simp only [hko, if_false] at hd
+      rw [begin_openOther]
+      exact forget_openOther_ne s o k f hko (hi.opened k r0 x0 f q hd hk hs hsid)
+
+theorem openInv_reinit (s : State) (o : Nat) (hi : OpenInv s) : OpenInv (reinit s o) where
+  legacy := hi.legacy
+  opened := fun k r0 x0 f q hd hk hs hsid => by
+    rw [reinit_oo, forget_oo] at hd
+    by_cases hko : k = o
+    · simp [hko] at hd
+    · simp only [hko, if_false] at hd
+      exact reinit_openOther_ne s o k f hko (hi.opened k r0 x0 f q hd hk hs hsid)
+
+theorem openInv_arrive (s : State) (c : Nat) (r : Req) (hi : OpenInv s) : OpenInv (arrive s c r).1 := by
+  cases hres : resolve s r with
+  | none => rw [arrive_eq_unresolved s c r hres]; exact hi
+  | some o =>
+    cases hb : (s.oo o).busy with
+    | some b => rw [arrive_eq_wait s c r o hres (by simp [hb])]; exact ⟨hi.legacy, hi.opened⟩
+    | none =>
+      by_cases hrep : ∃ resp, (s.oo o).lastResp = some resp ∧ r.seq = (s.oo o).lastSeq
+      · obtain ⟨resp, h1, h2⟩ := hrep
+        rw [arrive_eq_replay s c r o resp hres hb h1 h2]; exact hi
+      · have hn : NoReplay (s.oo o) r.seq := by
+          cases h1 : (s.oo o).lastResp with
+          | none => exact Or.inl h1
+          | some resp => exact Or.inr (fun h2 => hrep ⟨resp, h1, h2⟩)
+        cases hc : (s.oo o).confirmed with
+        | true =>
+          by_cases hq : r.seq = nextSeq (s.oo o).lastSeq
+          · rw [arrive_eq_start_confirmed s c r o hres hb hn hc hq]; exact openInv_begin s o c r hi
+          · rw [arrive_eq_badseq_confirmed s c r o hres hb hn hc hq]; exact hi
+        | false =>
+          by_cases hk : r.kind = .open_
+          · rw [arrive_eq_unconfirmed_open s c r o hres hb hn hc hk]
+            exact openInv_begin _ o c r (openInv_reinit s o hi)
+          · by_cases hk2 : r.kind = .openConfirm
+            · rw [arrive_eq_unconfirmed_confirm s c r o hres hb hn hc hk2]
+              split
+              · exact hi
+              · exact openInv_begin s o c r hi
+            · rw [arrive_eq_unconfirmed_deny s c r o hres hb hn hc hk2 hk]; exact hi
+
+/-- `openOwnerFilesByOther` after `finish`. -/
+theorem finish_openOther (s : State) (o : Nat) (x : Fin) (call : Nat) (r : Req) (h : (s.oo o).busy = some (call, r)) (f : Nat) :
+    (finish s o x).1.openOther f =
+      match (effResp s r x).sid with
+      | some (f', _) => if ((effResp s r x).status == 0) && r.kind == .open_ && f = f' then some o else s.openOther f
+      | none => s.openOther f := by
+  unfold finish; rw [h]; dsimp only
+  cases (effResp s r x).sid with
+  | none => rfl
+  | some p => rfl
+
+theorem finish_legacy (s : State) (o : Nat) (x : Fin) : (finish s o x).1.legacyOpenFH = s.legacyOpenFH := by
+  unfold finish; split <;> rfl
+
+theorem openInv_finish (s : State) (o : Nat) (x : Fin) (hinv : Inv s) (hi : OpenInv s) (hwf : OpenWF s (.finish o x)) :
+    OpenInv (finish s o x).1 := by
+  cases hb : (s.oo o).busy with
+  | none => rw [finish_idle s o x hb]; exact hi
+  | some b =>
+    obtain ⟨call, r⟩ := b
+    refine ⟨by rw [finish_legacy]; exact hi.legacy, fun k r0 x0 f q hd hk hs hsid => ?_⟩
+    rw [finish_openOther s o x call r hb f]
+    by_cases hko : k = o
+    · subst hko
+      rw [finish_oo_same s k x call r hb] at hd
+      cases hadv : shouldComplete (effResp s r x).status
+      · simp only [hadv, Bool.false_eq_true, if_false] at hd
+        rw [(hinv.busy k _ hb).2] at hd; cases hd
+      · simp only [hadv, if_true, Option.some.injEq, Prod.mk.injEq] at hd
+        obtain ⟨e1, e2⟩ := hd
+        subst e1; subst e2
+        simp [hsid, hs, hk]
+    · rw [finish_oo_other s o x k hko] at hd
+      have hold := hi.opened k r0 x0 f q hd hk hs hsid
+      cases hsid' : (effResp s r x).sid with
+      | none => simpa using hold
+      | some p =>
+        obtain ⟨f', q'⟩ := p
+        simp only []
+        by_cases hcond : (((effResp s r x).status == 0) && r.kind == .open_ && decide (f = f')) = true
+        · simp only [Bool.and_eq_true, beq_iff_eq, decide_eq_true_eq] at hcond
+          obtain ⟨⟨h1, h2⟩, h3⟩ := hcond
+          subst h3
+          rcases hwf call r f q' hb h2 h1 hsid' with h | h
+          · rw [hold] at h; cases h
+          · rw [hold] at h; cases h; exact absurd rfl hko
+        · simp only [Bool.and_eq_true, beq_iff_eq, decide_eq_true_eq] at hcond
+          rw [if_neg (by simpa using hcond)]; exact hold
+
+theorem lockTx_openOther (s : State) (r : LReq) (x : Resp) :
+    (lockTx s r x).1.openOther = s.openOther ∧ (lockTx s r x).1.legacyOpenFH = s.legacyOpenFH := by
+  unfold lockTx
+  split
+  · exact ⟨rfl, rfl⟩
+  · dsimp only
+    repeat (first | exact ⟨rfl, rfl⟩ | split)
+
+theorem openInv_reachable {s : State} (h : ReachableWF s) : OpenInv s := by
+  induction h with
+  | init => exact ⟨rfl, fun o r0 x0 f q hd => by simp at hd⟩
+  | step o hr hwf ih =>
+    have hinv := inv_reachable hr.reachable
+    cases o with
+    | arrive c r => exact openInv_arrive _ c r ih
+    | finish o x => exact openInv_finish _ o x hinv ih hwf
+    | lockTx r x =>
+      obtain ⟨h1, h2⟩ := lockTx_openOther _ r x
+      obtain ⟨h3, _⟩ := lockTx_oo _ r x
+      refine ⟨?_, fun k r0 x0 f q hd hk hs hsid => ?_⟩
+      · show (lockTx _ r x).1.legacyOpenFH = false
+        rw [h2]; exact ih.legacy
+      · have hd' : (((lockTx _ r x).1).oo k).lastDone = some (r0, x0) := hd
+        rw [h3] at hd'
+        show (lockTx _ r x).1.openOther f = some k
+        rw [h1]
+        exact ih.opened k r0 x0 f q hd' hk hs hsid
+
 end BbRe.Lemmas.Replay40
